@@ -569,7 +569,7 @@ def run(r):
               "configuration and a larger sample at full granularity.  A schedule is non-trivial when at least one request returned "
               "before an acquire locked (an obligation of the property exists).  Besides the schedules: op sequences on the template store behind fast reload "
               "(directed product of name state x earlier use x loader answer x clear x lookup kind, plus seeded random sequences; non-trivial when a loader is set and a clear occurs) and "
-              "op sequences over the lifetime of two reloaders (every notifier entry point before / after the drop, on either reloader, plus seeded random ones; non-trivial when a drop or the second reloader occurs).")
+              "op sequences over the lifetime of two reloaders (every notifier entry point before / after the drop, on either reloader, requests issued from inside one reloader's creator on the other, EVERY sequence of up to 5 acquires / requests over the two reloaders, plus seeded random ones; non-trivial when a drop or the second reloader occurs).")
     r.assumptions = ["between two hook points a thread's step is not interleaved with other threads' steps in a way the lock structure does not already serialise (each segment contains at most one critical section on shared data besides the held cached_env mutex)",
                      "symmetric threads (identical requesters / identically configured acquirers) are scheduled in index order; for the 3x3 box request_reload returns right after setting the flag (the return step touches no shared state)",
                      "std::sync::Mutex provides mutual exclusion"]
